@@ -7,13 +7,17 @@ META = {
         "13.a civil year -> 2 half-years, 4 seasons, 12 months, nested correctly, in order; month.get_season consistent (every year)",
         "13.b a civil month lists exactly the dates that exist in it, in order, as many as its day count (every month, incl. October 1582)",
         "13.c a lunar year lists exactly its 12 or 13 months in order with the leap month right after its twin, for any leap table",
+        "13.d a lunar month lists exactly the days 1..day count of its own (year, month-with-leap), in order (engine B; listing loop unrolled, bound proved)",
+        "13.e a lunar day lists 13 slots of itself: 00:00, then 01:00, 03:00 ... 23:00; 13.f a sexagenary day lists 12 double-hours, the k-th starting 7200 k seconds after 23:00 of the previous civil day",
+        "13.g a sexagenary month lists the days from its Jie day to the day before the next Jie day, in order (engine B; loop unrolled 35 times, bound proved)",
         "day-of-year and year length agree with the lists: C01 (01.h)",
     ],
-    "outside": ["lunar month -> its 29/30 days, lunar / sexagenary day -> hour slots, sexagenary month -> days (need an abstract lunar month table; not built)"],
+    "outside": ["that the listed lunar days / hours are themselves accepted by their constructors (02.b, 09.b decide acceptance)", "sexagenary year -> months"],
     "assumptions": [
         "13.b: <SolarDay as Tyme>::next replaced by the reference calendar (from the 1st of a month, n < month length steps land on the (n+1)-th existing date: lemma 13.L by induction; otherwise n successor steps), which 01.c/01.d/01.g prove equal to the real function",
         "13.c: ENV-A (calc_shuo/calc_qi arbitrary), ENV-L (leap table symbolic on a 3-year window), LunarMonth::from_ym = LunarMonth::new without the memo",
         "stub fmt_empty for std::fmt::format (error payloads)",
+        "13.d-13.g (engine B): Vec::new/push and integer ranges (incl. step_by) are modelled as lists and counters; 13.f: stepping the instant view moves the instant (11.j); 13.g: the month pillar view of a day equals this month exactly from its Jie day to the day before the next one (08.d), Jie days 28..33 days apart, stepping the day view moves the day (11.j)",
     ],
 }
 
@@ -28,6 +32,14 @@ def jobs(tier, seed):
       J.append(Job("13.c/lunar-year", "c13::c13c_lunar_year", [2000], stubs=["fmt_empty", "shuo_any", "qi_any", "leap_model", "from_ym_new"], unwind=26, est=300,
                  timeout=1500 if not T else 2400, mem_gb=8, n_inputs=3, clause="13.c", bound="any leap table on a 3-year window"))
     return J
+
+def engine_b(tier, seed, scr):
+    from props._b import engine
+    from mir2smt import lists, lunar
+    eng, err = engine(scr, "13.d/B/lunar-month-days", "13.d")
+    if eng is None:
+        return err
+    return [lunar.k_lunar_month_days(eng), lists.k_lunar_day_hours(eng), lists.k_sixty_day_hours(eng), lists.k_sixty_month_days(eng)]
 
 def fallback_candidates(j):
     if j.body.endswith("c13b_days"):
